@@ -83,7 +83,7 @@ pub fn worker() -> i32 {
 
 /// Integer regime, monitors off, adjoint-magnitude guard on: the configuration both builds use.
 pub fn run_trace_guarded(events: &[Ev]) -> Sim {
-    let mut sim = Sim::new(SimCfg { regime: Regime::Int, monitors: false, guard_mag: true });
+    let mut sim = Sim::new(SimCfg { regime: Regime::Int, monitors: false, guard_mag: true, silent: false });
     let mut src = crate::train::ListSource { evs: events, i: 0 };
     let mut rec = Vec::new();
     crate::train::drive(&mut sim, &mut src, &mut rec);
@@ -176,7 +176,7 @@ pub fn cross(base: u64, nruns: u64, wall_cap_s: f64) -> CrossOut {
                         p.smooth_pct = 0;
                         p.integer_only = true;
                         let mut gen = Gen::new(seed, p);
-                        let mut sim = Sim::new(SimCfg { regime: Regime::Int, monitors: false, guard_mag: true });
+                        let mut sim = Sim::new(SimCfg { regime: Regime::Int, monitors: false, guard_mag: true, silent: false });
                         let mut trace = Vec::new();
                         crate::train::drive(&mut sim, &mut gen, &mut trace);
                         let d64 = cross_digest(&sim);
